@@ -77,6 +77,7 @@ class _RealConn:
         faults = self.owner.faults_for(self.ordinal, tag, idx)
         rec = {'tag': tag, 'idx': idx, 'len': len(data), 'faults': []}
         self.log['tx'].append(rec)
+        honest = bytes(data)
         delay, pre, after = 0, b'', None
         for f in faults:
             kind = f['kind']
@@ -108,7 +109,7 @@ class _RealConn:
             else:
                 raise RuntimeError('unknown fault kind %r' % kind)
         rec['sent'] = len(pre) + len(data)
-        rec['intact'] = not [x for x in rec['faults'] if x != 'delay']
+        rec['intact'] = bytes(pre + data) == honest
         if delay:
             time.sleep(delay / 1e6)
         out = pre + data
